@@ -105,7 +105,12 @@ pub fn check(tape: &[u32], st: &mut Stats) -> Result<(), String> {
         st.nontrivial(tape);
         return check_link(&mut t, st);
     }
-    let c = c02::decode(&tape[1.min(tape.len())..]);
+    // half of the sources in free layout: error spans at the very end of a text without final newline, CRLF offsets
+    let free = tape.first().is_some_and(|x| x & 1 == 1);
+    let c = c02::decode_opts(&tape[1.min(tape.len())..], !free);
+    if c.rendered.features.contains("no-final-newline") {
+        st.class("source-without-final-newline");
+    }
     let model = asm_model(&c.prog);
     if !model.ok() {
         st.nontrivial(&c.prog);
@@ -121,7 +126,10 @@ pub fn describe(tape: &[u32]) -> Value {
     if t.chance(1, 4) {
         return json!({"kind": "link of a generated file with an origin-shifted copy of itself"});
     }
-    c02::describe(&tape[1.min(tape.len())..])
+    let free = tape.first().is_some_and(|x| x & 1 == 1);
+    let c = c02::decode_opts(&tape[1.min(tape.len())..], !free);
+    let m = asm_model(&c.prog);
+    json!({ "source": c.rendered.text, "faults": c.faults, "violated_conditions": format!("{:?}", m.violations) })
 }
 
 pub fn run(ctx: &Ctx) -> Outcome {
@@ -135,7 +143,7 @@ pub fn run(ctx: &Ctx) -> Outcome {
     out.absorb(tape_search(ctx, "main", &cfg, check, describe));
     out.essential = [
         "asm-error:OverlappingLabels", "asm-error:UndetAddrLabel", "asm-error:CouldNotFindLabel", "asm-error:OffsetExternal", "asm-error:OffsetNewErr",
-        "asm-error:OverlappingBlocks", "asm-error:BlockInIO", "label-error-covered", "link-error:OverlappingBlocks", "link-error:OverlappingLabels",
+        "asm-error:OverlappingBlocks", "asm-error:BlockInIO", "label-error-covered", "link-error:OverlappingBlocks", "link-error:OverlappingLabels", "source-without-final-newline", "asm-error:UnclosedOrig",
     ]
     .iter()
     .map(|s| s.to_string())
